@@ -50,6 +50,11 @@ def fresh(prefix, sort):
     return z3.Const('%s!%d' % (prefix, _FRESH[0]), sort)
 
 
+def next_id():
+    _FRESH[0] += 1
+    return _FRESH[0]
+
+
 def null():
     if _REF_SORT[0][1] is not None:
         return _REF_SORT[0][1][0]      # finite-scope mode: the first enumeration value plays None
@@ -299,6 +304,18 @@ class VModel(Value):
         return z3.BoolVal(True)
 
 
+class VItemsDict(VModel):
+    """a dict known only through the list of its items (result of a dict comprehension over a symbolic list)"""
+
+    def __init__(self, items):
+        self.items_list = items
+
+    def getattr(self, I, name):
+        if name == 'items':
+            return VFunc('dict.items', impl=lambda I2, b, a, k: self.items_list)
+        raise Unsupported('attribute %s of a comprehension dict' % name)
+
+
 class VGen(Value):
     """a generator expression / lazy iterable over concrete items"""
 
@@ -546,6 +563,8 @@ def clist_to_sym(cl, ek):
 
 def kind_of(v):
     """best-effort kind of a runtime value (for auto-declared fields / list elements)"""
+    if hasattr(v, 'kind_'):
+        return v.kind_()
     if isinstance(v, VInt):
         return Int
     if isinstance(v, VReal):
@@ -578,6 +597,8 @@ def any_inject(v):
     A = AnySort()
     if isinstance(v, VAny):
         return v.t
+    if hasattr(v, 'any_term'):
+        return v.any_term()
     if isinstance(v, VNone):
         return z3.Const('any_none', A)
     if isinstance(v, VInt):
